@@ -27,7 +27,7 @@ SetMax(S) == CHOOSE x \in S : \A z \in S : x >= z
 SortedSeq(S, key(_)) == SetToSortSeq(S, LAMBDA u, v : key(u) < key(v))
 
 NoAttr == [lab |-> "~", word |-> "~", lemma |-> "~", morph |-> "~", edge |-> "~",
-           head |-> "~", split |-> "~", hb |-> "~", bn |-> 0]
+           head |-> "~", split |-> "~", hb |-> "~", bn |-> 0, id |-> 0]
 
 -----------------------------------------------------------------------------
 (* (1) raw graph                                                            *)
@@ -93,7 +93,7 @@ GAttr(G, i) == [lab |-> G.nodes[i].lab, word |-> G.nodes[i].word,
                 lemma |-> G.nodes[i].lemma, morph |-> G.nodes[i].morph,
                 edge |-> G.nodes[i].edge, head |-> G.nodes[i].head,
                 split |-> G.nodes[i].split, hb |-> G.nodes[i].hb,
-                bn |-> G.nodes[i].bn]
+                bn |-> G.nodes[i].bn, id |-> i]
 AbsNode(G, i) == [y |-> GY(G, i), d |-> GDepth(G, i), tok |-> GLeaf(G, i),
                   a |-> GAttr(G, i)]
 Abs(G) == [n |-> Cardinality(GLeaves(G)),
@@ -161,6 +161,14 @@ Pre(T, x) == LET ks == KidsSeq(T, x) IN
 RECURSIVE Post(_, _)
 Post(T, x) == LET ks == KidsSeq(T, x) IN
               FlattenSeq([i \in 1..Len(ks) |-> Post(T, ks[i])]) \o <<x>>
+
+\* node identity: a.id is the stable raw-graph index (0 = created by the model)
+Ids(T) == {x.a.id : x \in T.nodes} \ {0}
+ById(T, i) == CHOOSE x \in T.nodes : x.a.id = i
+PId(T, x) == IF HasParent(T, x) THEN Parent(T, x).a.id ELSE -1
+\* forget the identity of nodes created after `maxid`
+StripNew(T, maxid) == [T EXCEPT !.nodes = {IF x.a.id > maxid THEN [x EXCEPT !.a.id = 0] ELSE x : x \in @}]
+StripIds(T) == StripNew(T, 0)
 
 \* structure only / attribute projections
 Shape(T) == {[y |-> x.y, d |-> x.d, tok |-> x.tok] : x \in T.nodes}
